@@ -605,6 +605,20 @@ func (s *SendCancelAction) Execute(services *SwapServices, swap *SwapData) Event
 type TakerSendPrivkeyAction struct{}
 
 func (s *TakerSendPrivkeyAction) Execute(services *SwapServices, swap *SwapData) EventType {
+	// The swap key lets the maker take the on-chain output at once. It must not
+	// be revealed while the claim invoice is paid or a claim payment is still in
+	// flight, e.g. after a payment call returned an error although the HTLC was
+	// offered, or after a restart during the payment. RecoverClaimPayment never
+	// creates a payment: it reports a missing or failed payment as an error and
+	// follows a pending one until it is resolved.
+	if swap.OpeningTxBroadcasted != nil && swap.OpeningTxBroadcasted.Payreq != "" {
+		preimage, err := services.lightning.RecoverClaimPayment(swap.OpeningTxBroadcasted.Payreq)
+		if err == nil && preimage != "" {
+			swap.ClaimPreimage = preimage
+			return Event_OnClaimInvoicePaid
+		}
+	}
+
 	privkeystring := hex.EncodeToString(swap.PrivkeyBytes)
 	nextMessage, nextMessageType, err := MarshalPeerswapMessage(&CoopCloseMessage{
 		SwapId:  swap.GetId(),
